@@ -517,7 +517,7 @@ cdef class CJokerHelper:
 
             # TODO: this is a continuation of the massive hack introduced above.
             if self.fixed_K_prior == 0:
-                self.Lambda[0] = (self.sigma_K0**2 / (1 - e**2)
+                self.Lambda[0] = min(self.max_K**2, self.sigma_K0**2 / (1 - e**2)
                                   * (P / self.P0)**(-2/3.))
 
             # compute likelihood, but also generate a, Ainv
@@ -567,7 +567,7 @@ cdef class CJokerHelper:
 
         # TODO: this is a continuation of the massive hack introduced above.
         if self.fixed_K_prior == 0:
-            self.Lambda[0] = (self.sigma_K0**2 / (1 - e**2)
+            self.Lambda[0] = min(self.max_K**2, self.sigma_K0**2 / (1 - e**2)
                               * (P / self.P0)**(-2/3.))
 
         # compute likelihood, but also generate a, A, etc.
